@@ -39,7 +39,9 @@ PROBE = """\
 71-Lu,,,7.25(3),,,,6.5(6),0.75(4),7.25(4),74.0(2.0)
 71-Lu-175,97.5,7/2,7.125(3),,,,6.625(6),0.625(4),7.25(4),21.0(3.0)
 71-Lu-176,2.5,7,6.25(2),,,E,4.75(4),1.25(3),5.875(4),2065.0(35.0)
-62-Sm,,,0.00(5),,,E,0.5(9),39.0(3.0),39.5(3.0),5922.0(56.0)"""
+62-Sm,,,0.00(5),,,E,0.5(9),39.0(3.0),39.5(3.0),5922.0(56.0)
+80-Hg-196,0.125,0,30.25(1.0),,,E,115.0(8.0),0,,3080.0(180.0)
+44-Ru-96,5.5,0,,,,,,,,0.25(2)"""
 PROBE_I = "1-H-1,-1.5,,-5.5\n71-Lu-176,-0.5(2),,\n54-Xe,-0.25,-0.125(1),"
 
 # column schema of nsftable as documented in the comment block above it
@@ -122,7 +124,7 @@ def run(ctx):
         el = I.getattr(T, sym)
         eq(ctx, "R1", f"row {key}: the record carries the element's number density", got.get("_number_density"),
            I.getattr(el, "number_density"), site)
-    ctx.floor("R1", 90)
+    ctx.floor("R1", 110)
 
     # ---- R2 fix_number --------------------------------------------------------------------
     fx = I.global_name("nsf", "fix_number")
